@@ -6,14 +6,15 @@ package main
 // byte with what the source sent, and the run id / offset / size used afterwards with the announced ones.
 
 import (
-	"fmt"
-	"path/filepath"
-	"sync"
+	"bytes"
 	"encoding/json"
+	"fmt"
 	"io"
 	"io/ioutil"
 	"math/rand"
 	"os"
+	"path/filepath"
+	"sync"
 	"time"
 
 	run "github.com/alibaba/RedisShake/redis-shake"
@@ -183,6 +184,10 @@ func hoRun(in []byte) (interface{}, error) {
 				return nil, err
 			}
 			base := filepath.Join(cfg.Dir, fmt.Sprintf("dumpmain-%d", c.Id))
+			if c.Id%2 == 1 {
+				ioutil.WriteFile(base+".0", bytes.Repeat([]byte{0xEE}, c.N+1000), 0644) // earlier, longer outputs at both paths
+				ioutil.WriteFile(base+".1", bytes.Repeat([]byte{0xEE}, c.N+1000), 0644)
+			}
 			conf.Options.SourceAddressList = []string{addr, addr2}
 			conf.Options.SourcePasswordRaw = ""
 			conf.Options.TargetRdbOutput = base
@@ -229,6 +234,10 @@ func hoRun(in []byte) (interface{}, error) {
 		case "dump":
 			f, _ := ioutil.TempFile(cfg.Dir, "dump-*.rdb")
 			name := f.Name()
+			if c.Id%2 == 1 {
+				// the output path already holds a LONGER file (an earlier dump): nothing of it may survive
+				f.Write(bytes.Repeat([]byte{0xEE}, c.N+1000))
+			}
 			f.Close()
 			var rd io.Reader
 			var nsize int64
